@@ -4,7 +4,7 @@ import z3
 
 from . import repo
 from .repo import FunctionInfo, ClassInfo, ModuleInfo, ReConst, FuncRef, ClassRef, ModuleRef, ConstDict, Opaque
-from .values import (Sym, SStr, SInt, SBool, SBytes, SStrList, Obj, DictV, ListV, SetV, BoundMethod,
+from .values import (SRec, Sym, SStr, SInt, SBool, SBytes, SStrList, Obj, DictV, ListV, SetV, BoundMethod,
                      BuiltinMethod, NativeFn, OpaqueFn, Lambda, Namespace, TypeV, ExcClass, ExcValue,
                      is_strlike, is_intlike, is_boollike, zs, zi, zb, mk_str, mk_int, mk_bool)
 from .engine import (ScopeInfeasible, OutOfReach, PathEnd, ReturnSig, BreakSig, ContinueSig, PyRaise, Frame, exc_isa,
@@ -75,6 +75,10 @@ class Interp(object):
     def eq(self, a, b):
         """-> python bool or z3 Bool"""
         if isinstance(a, Sym) or isinstance(b, Sym):
+            if isinstance(a, SRec) or isinstance(b, SRec):
+                if isinstance(a, SRec) and isinstance(b, SRec) and a.kind == b.kind:
+                    return a.z == b.z
+                return False
             if is_strlike(a) and is_strlike(b):
                 return zs(a) == zs(b)
             if (is_intlike(a) or is_boollike(a)) and (is_intlike(b) or is_boollike(b)):
@@ -122,6 +126,8 @@ class Interp(object):
         """`is`"""
         if a is None or b is None:
             return a is b
+        if isinstance(a, SRec) or isinstance(b, SRec):
+            return self.eq(a, b)
         if isinstance(a, (bool,)) or isinstance(b, bool):
             if isinstance(a, SBool) or isinstance(b, SBool):
                 return zb(a) == zb(b)
@@ -316,6 +322,8 @@ class Interp(object):
         if isinstance(v, Obj):
             if attr in v.fields:
                 return v.fields[attr]
+            if attr in v.methods:
+                return NativeFn("%s.%s" % (v.clsname(), attr), v.methods[attr])     # abstract override from the contract
             if isinstance(v.cls, ClassInfo):
                 m = v.cls.find_method(attr)
                 if m is not None:
@@ -356,6 +364,15 @@ class Interp(object):
             if isinstance(v, ReConst) and attr == "pattern":
                 return v.pattern
             return BuiltinMethod(v, attr)
+        if isinstance(v, SRec):
+            k = v.attrs.get(attr)
+            if k == "str":
+                return mk_str(self.ctx.opaque_fn("%s_%s" % (v.kind, attr), [z3.IntSort()], z3.StringSort())(v.z))
+            if k == "int":
+                return mk_int(self.ctx.opaque_fn("%s_%s" % (v.kind, attr), [z3.IntSort()], z3.IntSort())(v.z))
+            if k == "opaque":
+                return Obj("%s.%s" % (v.kind, attr), {"of": v})
+            raise PyRaise("AttributeError", "%s has no attribute %s" % (v.kind, attr))
         if isinstance(v, ExcValue):
             if attr == "args":
                 return tuple(v.args)
@@ -517,9 +534,14 @@ class Interp(object):
         for a in st.names:
             frame.locals[a.asname or a.name.split(".")[0]] = ModuleRef(a.name if a.asname else a.name.split(".")[0])
 
+    ABSENT_MODULES = ("chardet", "chardet.universaldetector")     # ground fact: not importable in this environment
+
     def st_ImportFrom(self, st, frame):
         if st.level:
             raise OutOfReach("relative import inside function")
+        if st.module in self.ABSENT_MODULES:
+            self.ctx.notes.append("assumed: module %s is not importable (as in this environment)" % st.module)
+            raise PyRaise("ImportError", "No module named %s" % st.module, site=st)
         for a in st.names:
             r = self.resolve_import(st.module, a.name)
             if r is NotImplemented:
